@@ -6,7 +6,8 @@ from harness.common import sim
 
 PROP = "C13"
 LEAN_MODULES = ["LunaVerif.Props.C13", "LunaVerif.Lemmas.C13Host", "LunaVerif.Lemmas.C13Write", "LunaVerif.Lemmas.C13Fin",
-                "LunaVerif.Props.C13Stream", "LunaVerif.Props.C13Handshake", "LunaVerif.Props.C13Space"]
+                "LunaVerif.Props.C13Stream", "LunaVerif.Props.C13Handshake", "LunaVerif.Props.C13Space",
+                "LunaVerif.Props.C13Foreign"]
 DRIVER = "Driver/C13.lean"
 REQUIRED_THEOREMS = ["ack_implies_delivered_or_repeat_partial", "nak_iff_cannot_take_partial", "fifo_inputs_legal",
                      "overflow_sticky", "overflowed_packet_discarded", "overflowed_packet_naked",
@@ -16,18 +17,26 @@ REQUIRED_THEOREMS = ["ack_implies_delivered_or_repeat_partial", "nak_iff_cannot_
                      "detRel_step", "winv_step", "sim_step", "out_stream_exact", "out_stream_prefix",
                      "out_stream_complete_when_drained", "last_iff_short_packet_end", "first_iff_transfer_start",
                      "nak_iff_cannot_take", "ack_implies_delivered_or_repeat", "out_toggle_tracks_observer",
-                     "ack_when_space", "ping_ack_promise"]
+                     "ack_when_space", "ping_ack_promise",
+                     # packets that are not for the endpoint may have any length (Props/C13Foreign.lean)
+                     "legalHostStrict_imp", "legalHost_not_strict", "foreign_cycle_ignored", "foreign_cycles_ignored",
+                     "foreign_transaction_ignored"]
 RULE = ("cases = (max_packet_size, buffer_size) x consumer pattern x response delay x seed; a scripted host issues OUT "
         "transactions (sizes 0..max, biased to max-size packets followed by a ZLP), retries NAKed packets, repeats "
         "ACKed packets with the old toggle (lost handshake), sends CRC-corrupted packets, PINGs, traffic to other "
-        "endpoints and ClearFeature(HALT); the response request comes 1, 2, 3 or 10 cycles after rx_complete "
+        "endpoints (OUT packets of 0 .. 3*max_packet_size+9 bytes, i.e. also LONGER than this endpoint's max packet "
+        "size, CRC-valid or corrupted; 8-byte SETUP packets under another and under the endpoint's own number) "
+        "and ClearFeature(HALT); the response request comes 1, 2, 3 or 10 cycles after rx_complete "
         "(HS / FS@12MHz / - / FS@60MHz interpacket delays); consumer: ready, stalled (buffer nearly full), random")
 ASSUMPTIONS = ["LegalHost (lean/LunaVerif/Lemmas/C13Host.lean, decidable acceptor Phase.step; the generated stimulus is "
                "checked against it cycle by cycle through the model driver's 7th output): in words the four items below, "
                "plus: no ClearFeature(HALT) for the endpoint inside its own OUT transaction; OUT and PING never decoded "
                "together; max_packet_size >= 1",
                "interface.rx has the shape USBDataPacketReceiver produces (exactly one of rx_complete/rx_invalid in the "
-               "cycle valid falls; >= 4 cycles between packets; sizes <= max_packet_size)",
+               "cycle valid falls; >= 4 cycles between packets); a data packet is no longer than max_packet_size IF the "
+               "token registers name the endpoint (OUT) -- packets of all other transactions on the bus (other endpoints, "
+               "SETUP, IN, PING) may have any length (lenOk; LegalHostStrict = the former hypothesis that bounded every "
+               "bus packet, legalHostStrict_imp)",
                "rx_ready_for_response follows rx_complete by >= 1 cycle (USBInterpacketTimer: 1 / 2 / 10 cycles)",
                "tokenizer fields and rx_pid_toggle are stable from the data packet until the response request",
                "every transaction starts with a token addressed to the device (tokenizer.new_token strobe) before its data"]
@@ -83,7 +92,8 @@ def script(mps, buf, pattern, delay, rng):
     if pattern == "overflow-witness":
         return [{"t": "out", "n": mps}, {"t": "out", "n": mps}, {"t": "out", "n": mps}, {"t": "drain"}]
     for _ in range(rng.range(8, 20)):
-        k = rng.weighted([(10, "out"), (2, "corrupt"), (2, "ping"), (1, "other"), (1, "clear"), (2, "repeat")])
+        k = rng.weighted([(10, "out"), (2, "corrupt"), (2, "ping"), (1, "other"), (1, "clear"), (2, "repeat"),
+                          (1, "otherlong"), (1, "setup")])
         if k == "out":
             n = rng.weighted([(4, mps), (2, 0), (1, 1), (2, max(0, mps - 1)), (3, rng.range(0, mps))])
             acts.append({"t": "out", "n": n})
@@ -222,6 +232,27 @@ def simulate(desc):
                 await idle(rng.range(1, 3))
                 r = await data_packet([rng.below(256) for _ in range(rng.range(0, mps))], True, delay)
                 log.append({"k": "other", "ack": r[0], "nak": r[1], "at": len(stim)})
+            elif a["t"] == "otherlong":
+                # an OUT transaction for another endpoint whose packet is LONGER than this endpoint's max packet size
+                # (e.g. a 64-byte endpoint next to a 4-byte one); CRC-valid or corrupted
+                tok[:] = [(EP + 1 + rng.below(14)) % 16 or 1, 1, 0]
+                if tok[0] == EP:
+                    tok[0] = EP + 1
+                pid[0] = rng.below(2)
+                await idle(1, new=1)
+                await idle(rng.range(1, 3))
+                n = rng.choice([mps + 1, mps + 2, 2 * mps, 2 * mps + 1, 3 * mps + 9, rng.range(mps + 1, 3 * mps + 9)])
+                r = await data_packet([rng.below(256) for _ in range(n)], rng.chance(80), delay)
+                log.append({"k": "otherlong", "n": n, "ack": r[0] if r else 0, "nak": r[1] if r else 0, "at": len(stim)})
+            elif a["t"] == "setup":
+                # the 8-byte DATA0 packet of a SETUP transaction (token registers: neither OUT nor PING), for endpoint 0 or
+                # -- a control endpoint with this number -- under the endpoint's own number
+                tok[:] = [rng.choice([0, 0, EP]), 0, 0]
+                pid[0] = 0
+                await idle(1, new=1)
+                await idle(rng.range(1, 3))
+                r = await data_packet([rng.below(256) for _ in range(8)], rng.chance(85), delay)
+                log.append({"k": "setup", "ep": tok[0], "ack": r[0] if r else 0, "nak": r[1] if r else 0, "at": len(stim)})
             elif a["t"] == "clear":
                 await idle(1, clr=1)
                 host_toggle = 0
@@ -286,6 +317,9 @@ def monitor(mps, buf, stim, rows):
             if e["ep"] == EP and e["isping"]: tags.add("ping ack" if e["ack"] else "ping nak")
             continue
         if e["ep"] != EP or not e["io"]:
+            if len(e["payload"]) > mps:
+                tags.add("foreign packet longer than mps" + (" (corrupted)" if e.get("corrupt") else "") +
+                         (" under own number" if e["ep"] == EP else ""))
             continue
         if e.get("corrupt"):
             if e["pid"] == toggle and e["payload"]:
